@@ -516,7 +516,9 @@ def empty_values_accepted(model: Model, run: Run) -> None:
                                      f"{fi.name} raises a syntax error when `{l[:60]}`: `{w}` is the extent of an assertion value, and the empty value is valid "
                                      "(str() writes `(attr=)` for it), so such a filter no longer parses back", model.loc(fi.module, r)))
     run.floor("parser functions building filters with assertion values", n_val, 1)
-    run.floor("raise statements in those functions", n_raise, 2)
+    total_raises = sum(1 for f_ in fa.parser_functions for r in walk_no_nested(f_.node) if isinstance(r, ast.Raise))
+    run.coverage["raises_in_value_building_functions"] = n_raise
+    run.floor("raise statements in the filter string parser", total_raises, 10)
 
 
 def operator_agreement(model: Model, run: Run) -> None:
@@ -546,6 +548,40 @@ def operator_agreement(model: Model, run: Run) -> None:
                     built.setdefault(c.func.id, set()).update(chars)
                     if not chars:
                         fallthrough.setdefault(c.func.id, []).extend(l for l in lits if "!=" in l)
+    # ... or picks the class from a table keyed by that character: {">": FilterGreaterOrEqual, ...}[t](...) / .get(t, Default)(...)
+    from .c05 import may_raise
+    rz = may_raise(model).r
+
+    def class_in(v: ast.expr) -> Optional[str]:
+        if isinstance(v, ast.Lambda):
+            v = v.body
+        for x in ast.walk(v):
+            nm = x.func.id if isinstance(x, ast.Call) and isinstance(x.func, ast.Name) else x.id if isinstance(x, ast.Name) else None
+            if nm and model.resolve_name(FILTER, nm) in model.classes and model.is_subclass(model.resolve_name(FILTER, nm), f"{FILTER}.LDAPFilter"):
+                return nm
+        return None
+    for fi in fa.parser_functions:
+        for c in walk_no_nested(fi.node):
+            if isinstance(c, ast.Call) and isinstance(c.func, (ast.Subscript, ast.Call)):
+                try:
+                    t0 = rz.type_of(c.func, fi)
+                except Exception:
+                    continue
+                if t0[0] != "dictget" or t0[1][0] != "dictlit":
+                    continue
+                d = t0[1][2]
+                keys = [k.value for k in d.keys if isinstance(k, ast.Constant) and isinstance(k.value, str) and len(k.value) == 1]
+                if len(keys) != len(d.keys):
+                    continue
+                for k, v in zip(keys, d.values):
+                    cn = class_in(v)
+                    if cn:
+                        built.setdefault(cn, set()).add(k)
+                if len(t0) > 2 and t0[2] is not None:
+                    cn = class_in(t0[2])
+                    if cn:
+                        built.setdefault(cn, set())
+                        fallthrough.setdefault(cn, []).extend(f"_ != '{k}'" for k in keys)
     n = 0
     for cq in model.subclasses(f"{FILTER}.LDAPFilter", strict=True):
         c = model.classes[cq]
